@@ -120,7 +120,40 @@ func add(a, b string) string {
 	if b == "0" {
 		return a
 	}
+	// a + (x - a) == x  (used by the absolute-index form of quantifiers)
+	if strings.HasPrefix(b, "(- ") && strings.HasSuffix(b, " "+a+")") {
+		x := b[3 : len(b)-len(a)-2]
+		if balanced(x) {
+			return x
+		}
+	}
+	if strings.HasPrefix(a, "(- ") && strings.HasSuffix(a, " "+b+")") {
+		x := a[3 : len(a)-len(b)-2]
+		if balanced(x) {
+			return x
+		}
+	}
 	return sx("+", a, b)
+}
+
+func balanced(x string) bool {
+	d := 0
+	for i := 0; i < len(x); i++ {
+		switch x[i] {
+		case '(':
+			d++
+		case ')':
+			d--
+			if d < 0 {
+				return false
+			}
+		case ' ':
+			if d == 0 {
+				return false
+			}
+		}
+	}
+	return d == 0
 }
 
 func sub(a, b string) string {
